@@ -336,10 +336,10 @@ PROP = Prop(
         Workload("full_table", wl_full_table, quick=120, thorough=2500),
         Workload("expansion", wl_expansion, quick=120, thorough=2500),
         Workload("zero_fingerprint", wl_zero_fingerprint, quick=80, thorough=2000),
-        Workload("explore", wl_explore, quick=200, thorough=5000),
+        Workload("explore", wl_explore, quick=200, thorough=3500),
         Workload("long", wl_long, quick=60, thorough=3000),
         Workload("crowd", wl_crowd, quick=16, thorough=320),
-        Workload("after_refusals", wl_after_refusals, quick=100, thorough=3000),
+        Workload("after_refusals", wl_after_refusals, quick=100, thorough=1500),
     ],
     assumptions=["fingerprint model uses an independent FNV-1a (ASCII/bytes keys); keys whose raw fingerprint is 0 (the empty-slot marker) appear only in the zero_fingerprint workload, whose histories contain no removals (how 0 is remapped is the library's choice)",
                  "after a failed add the presence of the NEW key is taken from observation (the statement only protects the keys present before)",
